@@ -71,7 +71,7 @@ def run(tier, seed, replay):
         print("replay: status =", r["status"])
         if r["status"] == "OK":
             print("---- fmt(x)\n%s" % r["f1"])
-            for k, w in G.judge_layout_only(r):
+            for k, w in G.judge_layout_only(r, text):
                 res.violation(k, w, {"cfg": cfg, "text": text, "fmt": r["f1"]})
         elif r["status"] != "PARSE":
             res.violation("panic", "formatting panics: " + r.get("msg", ""), {"cfg": cfg, "text": text})
@@ -115,7 +115,7 @@ def run(tier, seed, replay):
             n_sv += 1
         if len(res.coverage["samples"]) < 4 and style not in ("orig",) and len(text) < 400:
             res.sample({"cfg": G.cfg_wire(cfg), "tag": tag, "text": text[:400], "fmt": r["f1"][:400]})
-        for k, w in G.judge_layout_only(r):
+        for k, w in G.judge_layout_only(r, text):
             res.hist("failure_histogram", k)
             fails.append((k, w, cfg, text, tag))
     res.coverage["evaluations"] = n_ok
@@ -133,11 +133,11 @@ def run(tier, seed, replay):
         def p(texts):
             rs = G.run_cases(binary, [(cfg, t) for t in texts], "ts")
             out = []
-            for r in rs:
+            for r, t in zip(rs, texts):
                 if key == "panic":
                     out.append(r["status"] in ("PANIC", "CRASH"))
                 else:
-                    out.append(r["status"] == "OK" and any(k == key for k, _ in G.judge_layout_only(r)))
+                    out.append(r["status"] == "OK" and any(k == key for k, _ in G.judge_layout_only(r, t)))
             return out
         return p
 
@@ -156,7 +156,7 @@ def run(tier, seed, replay):
         r = G.run_cases(binary, [(cfg, small)], "ts")[0]
         w2 = w
         if r["status"] == "OK":
-            for k2, wx in G.judge_layout_only(r):
+            for k2, wx in G.judge_layout_only(r, small):
                 if k2 == k:
                     w2 = wx
         res.violation(k, w2, {"cfg": cfg, "text": small, "original_case": tag, "fmt": r.get("f1"),
